@@ -25,6 +25,7 @@ from contracts.C13_alloc_proofs import AVC, _agg, ov_t
 BACKEND = AP.BACKEND
 FEAS_MS = 5000
 I = z3.IntSort()
+CAT = z3.Function("str.cat", I, I, I); SUF = z3.Function("str.cat_underscore", I, I)
 def _quiet(o):
     o.logger = logging.getLogger("x"); o.logger.disabled = True
     for n in ("SoCCSRHandler", "SoCIRQHandler", "SoCRegion", "SoCBusHandler", "SoC"): logging.getLogger(n).disabled = True
@@ -41,29 +42,27 @@ class Name:
     def __hash__(self): return id(self)
     def __eq__(self, o): return isinstance(o, Name) and (o is self or bool(SymBool(self.t == o.t)))
     def __ne__(self, o): return not self.__eq__(o)
-    def __add__(self, o): return Name(pysym.CTX.fresh("concat"))
+    def __add__(self, o):
+        """string concatenation, uninterpreted: name + "_" is SUF(name), name + other_name is CAT(name, other_name); any other suffix gives some string"""
+        if isinstance(o, Name): return Name(CAT(self.t, o.t))
+        if o == "_": return Name(SUF(self.t))
+        return Name(pysym.CTX.fresh("concat"))
     def __radd__(self, o): return Name(pysym.CTX.fresh("concat"))
     def upper(self): return self
 
 class NDict(SymDict):
-    """SymDict whose symbolic prefix has named keys: key of entry i is the identity key(i); `name in d` is decided, not arbitrary"""
+    """SymDict whose key set is known: `name in d` is decided by the set K of the names of the symbolic prefix (a z3 array name -> bool) and the
+    concretely added items.  A dict holds each key once by construction; which entry of the prefix carries which name is not needed by any clause."""
     def __init__(self, seq):
-        SymDict.__init__(self, seq); self.key = z3.Function(f"{seq.name}.key", I, I)
-    def has(self, t):
-        i_ = z3.Int("i_")
-        return z3.Or(z3.Exists([i_], z3.And(0 <= i_, i_ < self.seq.len, self.key(i_) == t)), *[k.t == t for k, _ in self.extra if isinstance(k, Name)])
+        SymDict.__init__(self, seq); self.K = z3.Array(f"{seq.name}.names", I, z3.BoolSort())
+    def has(self, t, old=False):
+        return z3.Or(z3.Select(self.K, t), *([] if old else [k.t == t for k, _ in self.extra if isinstance(k, Name)]))
     def __contains__(self, key):
         if not isinstance(key, Name): raise Unsupported("NDict key")
         for k, _ in self.extra:
             if k is key: return True
         return bool(SymBool(self.has(key.t)))
     def get(self, key, default=None): raise Unsupported("NDict.get")
-def keys_unique(d):
-    a, b_ = z3.Ints("a b")
-    return z3.ForAll([a, b_], z3.Implies(z3.And(0 <= a, a < b_, b_ < d.seq.len), d.key(a) != d.key(b_)))
-def keys_disjoint(d, e):
-    a, b_ = z3.Ints("a b")
-    return z3.ForAll([a, b_], z3.Implies(z3.And(0 <= a, a < d.seq.len, 0 <= b_, b_ < e.seq.len), d.key(a) != e.key(b_)))
 
 FIELDS = {"origin": "int", "size": "int", "size_pow2": "int", "linker": "bool", "cached": "bool"}
 def inside(ro, rs, co, cs):                  # extent [ro, ro+rs) inside [co, co+cs), as check_region_is_in computes it
@@ -182,13 +181,14 @@ def _overlap_loops(d):
                         z3.ForAll([b_], z3.Implies(z3.And(toint(L["i"]) < b_, b_ < toint(L["i"]) + 1 + toint(L["j"])), pair_ok(toint(L["i"]), b_))),
                         z3.ForAll([a, b_], z3.Implies(z3.And(0 <= a, a < toint(L["i"]), a < b_, b_ < tl()), pair_ok(a, b_)))))}
 
-def _bus_state(ctx, address_width=32):
-    """arbitrary handler state satisfying the class invariant: names unique over regions and io_regions, non-linker windows of `regions`
-    pairwise disjoint, non-linker windows of `io_regions` pairwise disjoint"""
+def _bus_state(ctx, address_width=32, inv_regs=False, inv_io=False):
+    """arbitrary handler state; the part of the class invariant a case relies on is assumed: non-linker windows of `regions` pairwise disjoint (inv_regs),
+    non-linker windows of `io_regions` pairwise disjoint (inv_io)"""
     ctx.solver.set("timeout", FEAS_MS)
     seq = SymRecordSeq("R", FIELDS); regs = NDict(seq); ios = SymRecordSeq("IO", FIELDS); ioregs = NDict(ios)
     ctx.assume(SymBool(z3.And(seq.len >= 0, ios.len >= 0)))
-    ctx.assume(SymBool(z3.And(keys_unique(regs), keys_unique(ioregs), keys_disjoint(regs, ioregs), _disjoint(regs, seq.len), _disjoint(ioregs, ios.len))))
+    if inv_regs: ctx.assume(SymBool(_disjoint(regs, seq.len)))
+    if inv_io: ctx.assume(SymBool(_disjoint(ioregs, ios.len)))
     bus = _quiet(S.SoCBusHandler.__new__(S.SoCBusHandler))
     bus.regions = regs; bus.io_regions = ioregs; bus.address_width = address_width; bus.masters = {}; bus.slaves = {}
     return bus, seq, regs, ios, ioregs
@@ -205,11 +205,11 @@ def _install_overlap(bus, d_of):
 def _run_add_fixed(wrong, address_width=32):
     stats = dict(accepted=0, raised=0, accepted_cached=0, accepted_uncached=0)
     def run(ctx):
-        bus, seq, regs, ios, ioregs = _bus_state(ctx, address_width)
+        bus, seq, regs, ios, ioregs = _bus_state(ctx, address_width, inv_regs=True)
         bus.io_regions_check = SymBool(z3.Bool("io_regions_check"))
         r = _mk_region("n"); name = Name(z3.Int("name"))
         ctx.assume((r.origin >= 0) & (r.size >= 1) & (r.size_pow2 >= r.size))          # SoCRegion.__init__(proof): size_pow2 >= size for size >= 1
-        dup = z3.Or(regs.has(name.t), ioregs.has(name.t))
+        dup = z3.Or(regs.has(name.t, old=True), ioregs.has(name.t, old=True))
         loops, some = _is_io_loops(ios, r); vc = AVC(loops)
         is_io_fn, src = rewrite(S.SoCBusHandler.check_region_is_io, loops, vc)
         bus.check_region_is_io = lambda region: is_io_fn(bus, region)
@@ -233,16 +233,11 @@ def _run_add_fixed(wrong, address_width=32):
         ctx.check("post.window-disjoint-from-every-existing-non-linker-region", z3.Not(ovl))
         ctx.check("post.io-check=>uncached-region-lies-inside-an-IO-region", z3.Implies(z3.And(ioc, z3.Not(ca)), is_io))
         ctx.check("post.io-check=>region-inside-an-IO-region-is-uncached", z3.Implies(z3.And(ioc, is_io), z3.Not(ca)))
-        ctx.check("post.names-stay-unique", z3.And(z3.Not(regs.has.__func__(_Old(regs), name.t)), z3.Not(ioregs.has(name.t))))
         # candidate finding: nothing confines a FIXED-origin region to the address space of the bus
         ctx.check("finding.fixed-origin-region-lies-inside-the-address-space", toint(r.origin) + toint(r.size) <= 2**address_width)
         if wrong: ctx.check("wrong.accepted=>cached", ca)
     paths, obl = explore(run, max_paths=4000)
     return paths, obl, stats
-
-class _Old:
-    """view of an NDict without its concretely added items"""
-    def __init__(self, d): self.seq, self.key, self.extra = d.seq, d.key, []
 
 def _replay_outside(address_width=32):
     """native replay of the finding candidate on the unmodified functions"""
@@ -269,11 +264,11 @@ def c_add_fixed():
 def _run_add_io(wrong):
     stats = dict(accepted=0, raised=0)
     def run(ctx):
-        bus, seq, regs, ios, ioregs = _bus_state(ctx)
+        bus, seq, regs, ios, ioregs = _bus_state(ctx, inv_io=True)
         bus.io_regions_check = True
         r = _mk_region("n", cls=S.SoCIORegion); name = Name(z3.Int("name"))
         ctx.assume((r.origin >= 0) & (r.size >= 1) & (r.size_pow2 >= r.size))
-        dup = z3.Or(regs.has(name.t), ioregs.has(name.t))
+        dup = z3.Or(regs.has(name.t, old=True), ioregs.has(name.t, old=True))
         _install_overlap(bus, ioregs)
         a = z3.Int("a")
         ro, rp, rl = toint(r.origin), toint(r.size_pow2), tobool(r.linker)
@@ -317,9 +312,393 @@ def c_add_other():
     return _wrap("add_region[not-a-region]", _run_add_other, ["litex.soc.integration.soc.SoCBusHandler.add_region (unsupported-object branch)"], "arbitrary handler state; four objects that are not SoCRegion instances",
                  extra_cover=lambda s: s["raised"] >= 4)
 
+# =====================================================================================================================================
+# location handlers: SoCLocHandler.add/alloc with a symbolic n_locs; SoCCSRHandler / SoCIRQHandler
+# =====================================================================================================================================
+class Locs:
+    """the `locs` dict of a location handler in an arbitrary state: present[name], val[name] (z3 arrays over name identities) plus the GHOST
+    inverse used[number] / owner[number] (specification state: which numbers are taken and by whom).  `n in locs.values()` is answered from the ghost,
+    which the class invariant ties to the dict (see loc_inv): this keeps every query free of quantifier alternation."""
+    def __init__(self, pres, val, used, owner): self.pres, self.val, self.used, self.owner = pres, val, used, owner
+    @staticmethod
+    def fresh(tag=""):
+        c = pysym.CTX
+        if tag == "": mk = lambda n, srt: z3.Const(n, srt)
+        else: mk = lambda n, srt: c.fresh(n + tag, srt)
+        AB, AI = z3.ArraySort(I, z3.BoolSort()), z3.ArraySort(I, I)
+        return Locs(mk("pres", AB), mk("val", AI), mk("used", AB), mk("owner", AI))
+    @staticmethod
+    def empty(): return Locs(z3.K(I, z3.BoolVal(False)), z3.K(I, z3.IntVal(0)), z3.K(I, z3.BoolVal(False)), z3.K(I, z3.IntVal(0)))
+    def keys(self): return _LView(self, "k")
+    def values(self): return _LView(self, "v")
+    def items(self): raise Unsupported("locs.items")
+    def __getitem__(self, name):
+        pysym.CTX.check("locs[name]:name-is-present(no-KeyError)", z3.Select(self.pres, name.t))
+        return SymInt(z3.Select(self.val, name.t))
+    def get(self, name, default=None):
+        return SymInt(z3.Select(self.val, name.t)) if bool(SymBool(z3.Select(self.pres, name.t))) else default
+    def __setitem__(self, name, n):
+        k, nt = name.t, toint(n)
+        if nt is None: raise Unsupported("locs value")
+        used = z3.If(z3.Select(self.pres, k), z3.Store(self.used, z3.Select(self.val, k), z3.BoolVal(False)), self.used)      # overwriting a present name frees its number
+        self.pres = z3.Store(self.pres, k, z3.BoolVal(True)); self.val = z3.Store(self.val, k, nt)
+        self.used = z3.Store(used, nt, z3.BoolVal(True)); self.owner = z3.Store(self.owner, nt, k)
+    def snapshot(self): return Locs(self.pres, self.val, self.used, self.owner)
+class _LView:
+    def __init__(self, d, kind): self.d, self.kind = d, kind
+    def __contains__(self, x):
+        if self.kind == "k": return bool(SymBool(z3.Select(self.d.pres, x.t)))
+        if x is None: return False                        # the values are ints (class invariant)
+        return bool(SymBool(z3.Select(self.d.used, toint(x))))
+def loc_inv(l, n_locs):
+    """class invariant of a location handler: names -> numbers is injective and every number lies in [0, n_locs); with the ghost inverse:
+    every present name owns its number, every used number is the number of its (present) owner"""
+    k, m = z3.Ints("k m"); P, V, U, O = l.pres, l.val, l.used, l.owner
+    return z3.And(z3.ForAll([k], z3.Implies(z3.Select(P, k), z3.And(z3.Select(V, k) >= 0, z3.Select(V, k) < n_locs, z3.Select(U, z3.Select(V, k)), z3.Select(O, z3.Select(V, k)) == k))),
+                  z3.ForAll([m], z3.Implies(z3.Select(U, m), z3.And(z3.Select(P, z3.Select(O, m)), z3.Select(V, z3.Select(O, m)) == m))))
+def loc_inv_plain(l, n_locs):
+    """the same invariant without the ghost: injective, in range (what the property states) - proved to follow from loc_inv"""
+    a, b_ = z3.Ints("a b"); P, V = l.pres, l.val
+    return z3.And(z3.ForAll([a, b_], z3.Implies(z3.And(z3.Select(P, a), z3.Select(P, b_), a != b_), z3.Select(V, a) != z3.Select(V, b_))),
+                  z3.ForAll([a], z3.Implies(z3.Select(P, a), z3.And(z3.Select(V, a) >= 0, z3.Select(V, a) < n_locs))))
+
+class SymRange:
+    """range(n) for a symbolic n: element i is i, length max(n, 0)"""
+    def __init__(self, n): self.n = toint(n)
+    def __getitem__(self, i): return SymInt(toint(i))
+    def length(self): return SymInt(z3.If(self.n > 0, self.n, 0))
+class Reserved:
+    """the reserved_csrs / reserved_irqs dict handed to a constructor: unknown length, entry i = (name rname(i), number rnum(i) or None)"""
+    def __init__(self, tag):
+        self.len = z3.Int(f"{tag}.len"); self.rname = z3.Function(f"{tag}.name", I, I); self.rnum = z3.Function(f"{tag}.num", I, I); self.none = z3.Function(f"{tag}.isNone", I, z3.BoolSort())
+    def items(self): return self
+    def __getitem__(self, i):
+        it = toint(i)
+        return (Name(self.rname(it)), None if bool(SymBool(self.none(it))) else SymInt(self.rnum(it)))
+    def length(self): return SymInt(self.len)
+class HVC(AVC):
+    """AVC + loops that modify the heap: sp["heap"](locals) replaces the modified object state by fresh symbols between `check init` and `assume inv`"""
+    def len(self, x):
+        if isinstance(x, (SymRange, Reserved)): return x.length()
+        return AVC.len(self, x)
+    def for_begin(self, lid, iterable, L):
+        sp = self.loops[lid]
+        if "heap" not in sp: return AVC.for_begin(self, lid, iterable, L)
+        C = pysym.CTX; pos_name = sp["pos"]; st = {"it": iterable}
+        L0 = dict(L); L0[pos_name] = SymInt(z3.IntVal(0))
+        C.check(f"loop{lid}.init", sp["inv"](L0))
+        sp["heap"](L)
+        hv = {pos_name: SymInt(C.fresh(pos_name))}
+        L2 = dict(L); L2.update(hv)
+        C.assume(hv[pos_name] >= 0); C.assume(hv[pos_name] <= self.len(iterable)); C.assume(sp["inv"](L2))
+        st["hv"] = hv; st["pos"] = hv[pos_name]; self.st[lid] = st
+        return st
+
+def _alloc_cut(hnd):
+    """the real SoCLocHandler.alloc with its loop over range(self.n_locs) cut: invariant `every number below the position is used`"""
+    m = z3.Int("m")
+    loops = {0: dict(pos="p", inv=lambda L: z3.ForAll([m], z3.Implies(z3.And(0 <= m, m < toint(L["p"])), z3.Select(L["self"].locs.used, m))))}
+    vc = HVC(loops)
+    fn, src = rewrite(S.SoCLocHandler.alloc, loops, vc)
+    assert src.count("__vc.for_begin(0,") == 1, "loop structure of SoCLocHandler.alloc changed"
+    fn.__globals__["range"] = SymRange
+    return lambda name: fn(hnd, name)
+
+def _mk_handler(cls, ctx):
+    ctx.solver.set("timeout", FEAS_MS)
+    hnd = _quiet(cls.__new__(cls))
+    hnd.name = {S.SoCLocHandler: "LOC", S.SoCCSRHandler: "CSR", S.SoCIRQHandler: "IRQ"}[cls]
+    hnd.n_locs = SymInt(z3.Int("n_locs")); hnd.locs = Locs.fresh()
+    ctx.assume(SymBool(loc_inv(hnd.locs, hnd.n_locs.t)))
+    hnd.alloc = _alloc_cut(hnd)
+    if cls is S.SoCIRQHandler: hnd.enabled = SymBool(z3.Bool("enabled"))
+    return hnd
+
+def _check_add_post(ctx, hnd, old, name, n, reuse, stats, prefix="post."):
+    """postcondition of an accepted add(name, n, use_loc_if_exists=reuse) from the state `old`"""
+    l = hnd.locs; N = hnd.n_locs.t; k, m = z3.Ints("k m")
+    was = z3.Select(old.pres, name.t); g = z3.Select(l.val, name.t)
+    ctx.check(prefix + "invariant(names->numbers-injective,numbers-in-[0,n_locs))", z3.And(loc_inv(l, N), loc_inv_plain(l, N)))
+    ctx.check(prefix + "granted:name-present,0<=number<n_locs", z3.And(z3.Select(l.pres, name.t), g >= 0, g < N))
+    ctx.check(prefix + "frame:every-other-name-keeps-its-number", z3.ForAll([k], z3.Implies(k != name.t, z3.And(z3.Select(l.pres, k) == z3.Select(old.pres, k), z3.Select(l.val, k) == z3.Select(old.val, k)))))
+    ctx.check(prefix + "name-was-present-before=>reuse-requested-and-state-unchanged", z3.Implies(was, z3.And(tobool(reuse), g == z3.Select(old.val, name.t), l.used == old.used)))
+    ctx.check(prefix + "new-name=>its-number-was-granted-to-no-other-client", z3.Implies(z3.Not(was), z3.And(z3.Not(z3.Select(old.used, g)),
+                    z3.ForAll([k], z3.Implies(z3.And(z3.Select(old.pres, k)), z3.Select(old.val, k) != g)))))
+    if n is not None: ctx.check(prefix + "new-name=>granted-the-requested-number", z3.Implies(z3.Not(was), g == toint(n)))
+    else: ctx.check(prefix + "new-name=>granted-the-lowest-free-number", z3.Implies(z3.Not(was), z3.ForAll([m], z3.Implies(z3.And(0 <= m, m < g), z3.Select(old.used, m)))))
+
+def _run_loc_add(wrong, cls=S.SoCLocHandler, fixed=True):
+    stats = dict(accepted=0, raised=0, reused=0)
+    def run(ctx):
+        hnd = _mk_handler(cls, ctx); old = hnd.locs.snapshot(); N = hnd.n_locs.t
+        ctx.check("pre.ghost-invariant=>plain-invariant(injective,in-range)", loc_inv_plain(old, N))
+        name = Name(z3.Int("name")); n = SymInt(z3.Int("n")) if fixed else None
+        reuse = SymBool(z3.Bool("use_loc_if_exists"))
+        m = z3.Int("m")
+        was = z3.Select(old.pres, name.t)
+        try:
+            cls.add(hnd, name, n, use_loc_if_exists=reuse)
+        except S.SoCError:
+            elab.restore_stderr(); stats["raised"] += 1
+            l = hnd.locs
+            ctx.check("raise.state-unchanged", z3.And(l.pres == old.pres, l.val == old.val, l.used == old.used, l.owner == old.owner))
+            why = [z3.And(was, z3.Not(tobool(reuse)))]
+            if fixed: why += [z3.Select(old.used, n.t), n.t < 0, n.t >= N]
+            else: why += [z3.ForAll([m], z3.Implies(z3.And(0 <= m, m < N), z3.Select(old.used, m)))]
+            if cls is S.SoCIRQHandler: why += [z3.Not(tobool(hnd.enabled))]
+            ctx.check("raise=>(name-already-used-or-number-already-used-or-out-of-range/no-free-number" + ("-or-IRQs-not-enabled)" if cls is S.SoCIRQHandler else ")"), z3.Or(*why))
+            return
+        stats["accepted"] += 1
+        if cls is S.SoCIRQHandler: ctx.check("post.accepted=>IRQs-enabled", tobool(hnd.enabled))
+        _check_add_post(ctx, hnd, old, name, n, reuse, stats)
+        if wrong: ctx.check("wrong.granted-number-is-0", z3.Select(hnd.locs.val, name.t) == 0)
+    paths, obl = explore(run, max_paths=4000)
+    return paths, obl, stats
+
+def c_loc_add(clsname, fixed):
+    cls = getattr(S, clsname)
+    tag = f"{clsname}.add[{'n' if fixed else 'n=None(alloc)'},n_locs-symbolic]"
+    need = () if fixed else ("loop0.init", "loop0.step")
+    return _wrap(tag, lambda w: _run_loc_add(w, cls, fixed), [f"litex.soc.integration.soc.{clsname}.add", "litex.soc.integration.soc.SoCLocHandler.add"] + ([] if fixed else ["litex.soc.integration.soc.SoCLocHandler.alloc (loop over range(n_locs) cut)"]),
+                 "arbitrary name->number map satisfying the class invariant (z3 arrays + ghost inverse), SYMBOLIC n_locs, symbolic name / number / use_loc_if_exists" + (" / enabled" if cls is S.SoCIRQHandler else ""),
+                 need=need, extra_cover=lambda s: s["accepted"] >= 2 and s["raised"] >= 2)
+
+# ---- constructors --------------------------------------------------------------------------------------------------------------------
+class _Opaque:
+    """value that only reaches a log message"""
+    def __format__(self, spec): return "<opaque>"
+    __str__ = __repr__ = lambda self: "<opaque>"
+class CInt(SymInt):
+    """SymInt for constructor parameters: 2**x stays a CInt and `/` (true division, only used to print KiB figures) gives an opaque value"""
+    def __rpow__(self, base, mod=None): return CInt(AP._rpow(self, base, mod).t)
+    def __truediv__(self, o): return _Opaque()
+    def __rtruediv__(self, o): return _Opaque()
+    __hash__ = SymInt.__hash__
+
+def _sub(cls):
+    """subclass of the real handler class that differs in one point only: the EMPTY dict the constructor stores in self.locs is represented by the
+    empty symbolic map (so that the real add/alloc called by the constructor run on the proxy); alloc is the loop-cut real alloc"""
+    class X(cls):
+        @property
+        def locs(self): return self.__dict__["_locs"]
+        @locs.setter
+        def locs(self, v):
+            if isinstance(v, dict):
+                if v: raise Unsupported("non-empty dict literal stored in locs")
+                v = Locs.empty()
+            self.__dict__["_locs"] = v
+        def alloc(self, name): return _alloc_cut(self)(name)
+    X.__name__ = cls.__name__; X.__qualname__ = cls.__qualname__
+    return X
+
+def _reserved_loop(rsv, n_locs_of):
+    """sidecar invariant of `for name, n in reserved.items(): self.add(name, n)`: the class invariant holds and every reserved entry handled so far
+    is present (with its number when one was given); the loop modifies self.locs (heap havoc)"""
+    a = z3.Int("a")
+    def inv(L):
+        h = L["self"]; l = h.locs; kpos = toint(L["k"])
+        return z3.And(loc_inv(l, n_locs_of(h)), z3.ForAll([a], z3.Implies(z3.And(0 <= a, a < kpos), z3.And(z3.Select(l.pres, rsv.rname(a)), z3.Or(rsv.none(a), z3.Select(l.val, rsv.rname(a)) == rsv.rnum(a))))))
+    def heap(L): L["self"].locs = Locs.fresh("!h")
+    return {0: dict(pos="k", inv=inv, heap=heap)}, inv
+
+CSR_DW, CSR_AW, CSR_AL, CSR_PG, CSR_ORD = [8, 32], [14, 15, 16, 17, 18], [32], [0x400, 0x800, 0x1000, 0x2000, 0x4000], ["big", "little"]
+def _member(t, vals): return z3.Or(*[t == v for v in vals])
+
+def _run_csr_init(wrong, ordering="big"):
+    """the real constructor, unmodified, on ALL int configurations, with no reserved entries"""
+    AP._init_z3()
+    stats = dict(returned=0, raised=0)
+    def run(ctx):
+        ctx.solver.set("timeout", FEAS_MS)
+        ctx.assume(z3.And(*[AP.pow2_def(z3.IntVal(i)) for i in range(0, 20)]))          # instances of the definition of 2**k (k = 0..19)
+        dw, aw, al, pg = CInt(z3.Int("data_width")), CInt(z3.Int("address_width")), CInt(z3.Int("alignment")), CInt(z3.Int("paging"))
+        ctx.assume(z3.And(aw.t >= 0, pg.t != 0))          # a negative width makes 2**x a float, paging 0 a ZeroDivisionError (both before any check): outside the contract
+        X = _sub(S.SoCCSRHandler)
+        h = X.__new__(X)
+        legal = z3.And(_member(dw.t, CSR_DW), _member(aw.t, CSR_AW), _member(al.t, CSR_AL), _member(pg.t, CSR_PG), z3.BoolVal(ordering in CSR_ORD), dw.t <= al.t)
+        try:
+            S.SoCCSRHandler.__init__(h, data_width=dw, address_width=aw, alignment=al, paging=pg, ordering=ordering, reserved_csrs={})
+        except S.SoCError:
+            elab.restore_stderr(); stats["raised"] += 1
+            ctx.check("raise=>illegal-configuration", z3.Not(legal))
+            return
+        stats["returned"] += 1
+        N = toint(h.n_locs); l = h.locs
+        ctx.check("post.configuration-is-a-supported-one", legal)
+        ctx.check("post.fields-kept", z3.BoolVal(h.data_width is dw and h.address_width is aw and h.alignment is al and h.paging is pg and h.ordering == ordering and h.masters == {} and h.regions == {} and h.name == "CSR"))
+        ctx.check("post.pages-tile-the-CSR-space:n_locs*paging==(alignment//8)*2**address_width==2**(address_width+2)", z3.And(N * pg.t == (al.t / 8) * AP.POW2(aw.t), N >= 1, (al.t / 8) * AP.POW2(aw.t) == 4 * AP.POW2(aw.t)))
+        ctx.check("post.no-location-granted-yet(invariant-holds-trivially)", z3.And(l.pres == z3.K(I, z3.BoolVal(False)), l.used == z3.K(I, z3.BoolVal(False)), loc_inv(l, N)))
+        # every page of the handler lies inside the bus region add_csr_bridge creates for the CSR space (2**(address_width+2) bytes): for ALL page numbers
+        n_ = z3.Int("n_")
+        ctx.check("post.every-location-0<=n<n_locs-is-a-page-inside-the-CSR-space:0<=paging*n,paging*(n+1)<=2**(address_width+2)", z3.ForAll([n_], z3.Implies(z3.And(0 <= n_, n_ < N), z3.And(pg.t * n_ >= 0, pg.t * (n_ + 1) <= 4 * AP.POW2(aw.t)))))
+        if wrong: ctx.check("wrong.n_locs==32", N == 32)
+    paths, obl = explore(run, max_paths=6000)
+    return paths, obl, stats
+
+def c_csr_init(ordering):
+    legal = ordering in CSR_ORD
+    return _wrap(f"SoCCSRHandler.__init__[ordering={ordering!r}]", lambda w: _run_csr_init(w, ordering), ["litex.soc.integration.soc.SoCCSRHandler.__init__", "litex.soc.integration.soc.SoCLocHandler.__init__"],
+                 "ALL int data_width / address_width >= 0 / alignment / paging != 0 (symbolic); reserved_csrs = {}",
+                 extra_cover=(lambda s: s["returned"] == 50 and s["raised"] >= 4) if legal else (lambda s: s["returned"] == 0 and s["raised"] >= 1))
+
+def _run_csr_reserved(wrong, address_width=14, paging=0x800):
+    """the constructor's loop over an UNBOUNDED reserved_csrs dict (loop cut; the loop modifies self.locs), at one legal configuration"""
+    stats = dict(returned=0, raised=0)
+    def run(ctx):
+        ctx.solver.set("timeout", FEAS_MS)
+        rsv = Reserved("reserved"); ctx.assume(SymBool(rsv.len >= 0))
+        X = _sub(S.SoCCSRHandler)
+        loops, inv = _reserved_loop(rsv, lambda h: toint(h.n_locs)); vc = HVC(loops)
+        init, src = rewrite(S.SoCCSRHandler.__init__, loops, vc)
+        assert src.count("__vc.for_begin(0,") == 1 and "reserved_csrs.items()" in src, "loop structure of SoCCSRHandler.__init__ changed"
+        h = X.__new__(X); a = z3.Int("a")
+        try:
+            init(h, data_width=32, address_width=address_width, alignment=32, paging=paging, ordering="big", reserved_csrs=rsv)
+        except S.SoCError:
+            elab.restore_stderr(); stats["raised"] += 1
+            ctx.check("raise=>a-reserved-entry-was-rejected", rsv.len > 0)
+            return
+        stats["returned"] += 1
+        N = h.n_locs; l = h.locs
+        ctx.check("post.n_locs", z3.BoolVal(N == 4 * 2**address_width // paging))
+        ctx.check("post.invariant(names->numbers-injective,numbers-in-[0,n_locs))", z3.And(loc_inv(l, N), loc_inv_plain(l, N)))
+        ctx.check("post.every-reserved-CSR-holds-its-requested-page", z3.ForAll([a], z3.Implies(z3.And(0 <= a, a < rsv.len), z3.And(z3.Select(l.pres, rsv.rname(a)), z3.Or(rsv.none(a), z3.Select(l.val, rsv.rname(a)) == rsv.rnum(a))))))
+        ctx.check("post.reserved-names-are-pairwise-different,numbers-too", z3.ForAll([a], z3.Implies(z3.And(0 <= a, a < rsv.len), z3.And(z3.Select(l.val, rsv.rname(a)) >= 0, z3.Select(l.val, rsv.rname(a)) < N))))
+        if wrong: ctx.check("wrong.at-most-one-reserved-entry", rsv.len <= 1)
+    paths, obl = explore(run, max_paths=6000)
+    return paths, obl, stats
+
+def c_csr_reserved(address_width, paging):
+    return _wrap(f"SoCCSRHandler.__init__[reserved_csrs,aw={address_width},paging=0x{paging:x}]", lambda w: _run_csr_reserved(w, address_width, paging),
+                 ["litex.soc.integration.soc.SoCCSRHandler.__init__ (loop over reserved_csrs cut)", "litex.soc.integration.soc.SoCLocHandler.add", "litex.soc.integration.soc.SoCLocHandler.alloc (loop-cut)"],
+                 "unbounded symbolic reserved_csrs dict (symbolic names; numbers symbolic or None); one legal configuration",
+                 need=("loop0.init", "loop0.step"), extra_cover=lambda s: s["returned"] >= 1 and s["raised"] >= 2)
+
+def _run_irq_init(wrong):
+    stats = dict(returned=0, raised=0)
+    def run(ctx):
+        ctx.solver.set("timeout", FEAS_MS)
+        n_irqs = CInt(z3.Int("n_irqs")); rsv = Reserved("reserved"); ctx.assume(SymBool(rsv.len >= 0))
+        X = _sub(S.SoCIRQHandler)
+        EMPTY = z3.K(I, z3.BoolVal(False))
+        loops = {0: dict(pos="k", heap=lambda L: None, inv=lambda L: z3.And(toint(L["k"]) == 0, L["self"].locs.pres == EMPTY, L["self"].locs.used == EMPTY, z3.BoolVal(L["self"].enabled is False)))}
+        vc = HVC(loops)
+        init, src = rewrite(S.SoCIRQHandler.__init__, loops, vc)
+        assert src.count("__vc.for_begin(0,") == 1 and "reserved_irqs.items()" in src, "loop structure of SoCIRQHandler.__init__ changed"
+        h = X.__new__(X)
+        try:
+            init(h, n_irqs=n_irqs, reserved_irqs=rsv)
+        except S.SoCError:
+            elab.restore_stderr(); stats["raised"] += 1
+            ctx.check("raise=>(more-than-32-IRQs-or-a-reserved-entry)", z3.Or(n_irqs.t > 32, rsv.len > 0))
+            return
+        stats["returned"] += 1
+        ctx.check("post.n_locs==n_irqs<=32", z3.And(z3.BoolVal(h.n_locs is n_irqs), n_irqs.t <= 32))
+        ctx.check("post.no-IRQ-granted-yet,handler-disabled", z3.And(h.locs.pres == EMPTY, h.locs.used == EMPTY, loc_inv(h.locs, n_irqs.t), z3.BoolVal(h.enabled is False and h.name == "IRQ")))
+        ctx.check("post.(observation)returns-only-without-reserved-entries", rsv.len == 0)     # add() raises while the handler is not enabled, and __init__ leaves it disabled
+        if wrong: ctx.check("wrong.n_irqs==32", n_irqs.t == 32)
+    paths, obl = explore(run)
+    return paths, obl, stats
+
+def c_irq_init():
+    return _wrap("SoCIRQHandler.__init__", _run_irq_init, ["litex.soc.integration.soc.SoCIRQHandler.__init__", "litex.soc.integration.soc.SoCIRQHandler.add (called by the constructor)"],
+                 "ALL int n_irqs (symbolic), unbounded symbolic reserved_irqs dict", need=("loop0.init",), extra_cover=lambda s: s["returned"] >= 1 and s["raised"] >= 2)
+
+# ---- SoCCSRHandler.address_map / add_region -------------------------------------------------------------------------------------------
+def _run_address_map(wrong, with_memory=False):
+    stats = dict(accepted=0, raised=0)
+    def run(ctx):
+        hnd = _mk_handler(S.SoCCSRHandler, ctx); old = hnd.locs.snapshot(); N = hnd.n_locs.t
+        name = Name(z3.Int("name")); m = z3.Int("m"); k = z3.Int("k")
+        memid = z3.Int("memory.id") if with_memory else z3.IntVal(0)
+        OV = z3.Function("memory.name_override", I, I)
+        class Mem: name_override = Name(OV(memid))
+        if with_memory: ctx.assume(memid != 0)
+        def mangle(n_, m_): return z3.If(m_ == 0, n_, CAT(SUF(n_), OV(m_)))
+        key = mangle(name.t, memid)
+        # GHOST: which keys address_map has already handed out, and to which client (module name, memory id; 0 = the module's CSR bank)
+        handed = z3.Array("ghost.handed", I, z3.BoolSort()); cl_name = z3.Array("ghost.client.name", I, I); cl_mem = z3.Array("ghost.client.memory", I, I)
+        ctx.assume(z3.ForAll([k], z3.Implies(z3.Select(handed, k), z3.And(z3.Select(old.pres, k), k == mangle(z3.Select(cl_name, k), z3.Select(cl_mem, k))))))
+        try:
+            got = S.SoCCSRHandler.address_map(hnd, name, Mem if with_memory else None)
+        except S.SoCError:
+            elab.restore_stderr(); stats["raised"] += 1
+            l = hnd.locs
+            ctx.check("raise.state-unchanged", z3.And(l.pres == old.pres, l.val == old.val, l.used == old.used))
+            ctx.check("raise=>name-is-new-and-no-free-page", z3.And(z3.Not(z3.Select(old.pres, key)), z3.ForAll([m], z3.Implies(z3.And(0 <= m, m < N), z3.Select(old.used, m)))))
+            return
+        stats["accepted"] += 1
+        final = Name(key)
+        ctx.check("post.returns-the-page-recorded-for-the-(mangled)-name", z3.And(z3.Select(hnd.locs.pres, key), toint(got) == z3.Select(hnd.locs.val, key)))
+        ctx.check("post.page-inside-[0,n_locs)", z3.And(toint(got) >= 0, toint(got) < N))
+        _check_add_post(ctx, hnd, old, final, None, True, stats)
+        # each CSR page is granted to at most one client: a key already handed to a client must belong to THIS client (candidate finding: the mangling is not injective)
+        ctx.check("finding.page-was-not-already-handed-to-a-different-client", z3.Implies(z3.Select(handed, key), z3.And(z3.Select(cl_name, key) == name.t, z3.Select(cl_mem, key) == memid)))
+        if wrong: ctx.check("wrong.name-was-new", z3.Not(z3.Select(old.pres, key)))
+    paths, obl = explore(run, max_paths=4000)
+    return paths, obl, stats
+
+def _replay_tool(fname, func="scenario", *args):
+    import io as _io, contextlib, importlib.util
+    spec = importlib.util.spec_from_file_location(fname, f"/verif/tools/{fname}.py"); rp = importlib.util.module_from_spec(spec); spec.loader.exec_module(rp)
+    buf = _io.StringIO()
+    lvl = logging.root.manager.disable
+    try:
+        with contextlib.redirect_stdout(buf): hit = getattr(rp, func)(*args)
+    finally: logging.disable(lvl); elab.restore_stderr()
+    return bool(hit), buf.getvalue()[-900:]
+
+def _mark_findings(out, what, tool):
+    for r_ in out["results"]:
+        if ".finding." in r_["name"]:
+            r_["kind"] = "finding-witness"; r_["what"] = what
+            if r_["status"] == NOINPUT:
+                hit, txt = _replay_tool(tool); r_["replay_info"] = txt
+                if hit: r_["status"] = VIOLATED; r_["replay"] = f"tools/{tool}.py"
+    return out
+
+def c_address_map(with_memory):
+    out = _wrap(f"SoCCSRHandler.address_map[memory={'given' if with_memory else 'None'}]", lambda w: _run_address_map(w, with_memory),
+                ["litex.soc.integration.soc.SoCCSRHandler.address_map", "litex.soc.integration.soc.SoCLocHandler.add (use_loc_if_exists=True)", "litex.soc.integration.soc.SoCLocHandler.alloc (loop-cut)"],
+                "arbitrary name->page map satisfying the class invariant, symbolic n_locs; symbolic module name / memory name; ghost record of the clients already served",
+                need=("loop0.init", "loop0.step"), extra_cover=lambda s: s["accepted"] >= 2 and s["raised"] >= 1)
+    return _mark_findings(out, "SoCCSRHandler.address_map hands the CSR page of an existing client to a different client when module + '_' + memory name equals another module's name (mangling not injective, use_loc_if_exists=True)",
+                          "replay_csr_name_mangling_collision")
+
+def _run_csr_add_region(wrong):
+    stats = dict(accepted=0, raised=0)
+    def run(ctx):
+        ctx.solver.set("timeout", FEAS_MS)
+        hnd = _quiet(S.SoCCSRHandler.__new__(S.SoCCSRHandler))
+        seq = SymRecordSeq("CR", {"origin": "int"}); regs = NDict(seq); ctx.assume(SymBool(seq.len >= 0)); hnd.regions = regs
+        name = Name(z3.Int("name")); region = S.SoCCSRRegion(SymInt(z3.Int("origin")), 32, None)
+        dup = regs.has(name.t, old=True)
+        try:
+            S.SoCCSRHandler.add_region(hnd, name, region)
+        except S.SoCError:
+            elab.restore_stderr(); stats["raised"] += 1; return
+        stats["accepted"] += 1
+        ctx.check("post.region-recorded-under-the-name", z3.BoolVal(hnd.regions is regs and len(regs.extra) == 1 and regs.extra[0][0] is name and regs.extra[0][1] is region))
+        ctx.check("finding.name-was-not-already-used-by-another-CSR-region", z3.Not(dup))
+        if wrong: ctx.check("wrong.no-region-before", seq.len == 0)
+    paths, obl = explore(run)
+    return paths, obl, stats
+
+def c_csr_add_region():
+    out = _wrap("SoCCSRHandler.add_region", _run_csr_add_region, ["litex.soc.integration.soc.SoCCSRHandler.add_region"], "arbitrary regions dict (unbounded), symbolic name", extra_cover=lambda s: s["accepted"] >= 1)
+    return _mark_findings(out, "SoCCSRHandler.add_region has no checks ('FIXME: add checks'): a second region with a name already in use silently replaces the first (reached from SoC.finalize through the same name mangling collision)",
+                          "replay_csr_name_mangling_collision")
+
 def cases(tier):
     cs = [Case("check_region_is_in(proof)", c_is_in), Case("check_region_is_io(proof)", c_is_io),
           Case("add_region(proof,fixed-origin,io-rule,names)", c_add_fixed), Case("add_region(proof,SoCIORegion)", c_add_io), Case("add_region(proof,not-a-region)", c_add_other)]
+    for cn in ("SoCLocHandler", "SoCCSRHandler", "SoCIRQHandler"):
+        cs += [Case(f"{cn}.add(proof,n,symbolic-n_locs)", c_loc_add, cn, True), Case(f"{cn}.add(proof,alloc,symbolic-n_locs)", c_loc_add, cn, False)]
+    cs += [Case(f"SoCCSRHandler.__init__(proof,all-configurations,{o})", c_csr_init, o) for o in ("big", "little", "middle")]
+    geoms = [(14, 0x800), (14, 0x4000), (18, 0x400)] if tier == "quick" else [(14, 0x800)] + [(aw, pg) for aw in CSR_AW for pg in CSR_PG if (aw, pg) != (14, 0x800)]
+    cs += [Case(f"SoCCSRHandler.__init__(proof,reserved_csrs,aw{aw},paging0x{pg:x})", c_csr_reserved, aw, pg) for aw, pg in geoms]
+    cs += [Case("SoCIRQHandler.__init__(proof)", c_irq_init), Case("SoCCSRHandler.address_map(proof,memory=None)", c_address_map, False), Case("SoCCSRHandler.address_map(proof,memory)", c_address_map, True),
+           Case("SoCCSRHandler.add_region(proof)", c_csr_add_region)]
     return cs
 
 ASSUMPTIONS = []
